@@ -36,6 +36,10 @@ func (c *Ctx) emitOp03(r opRun, m modeling.Mesh) {
 		return
 	}
 	c.Note("op-ok:" + r.name)
+	if r.name == "split" {
+		c.Emit("c03.holds.split_spec", r.args+" "+r.answer(meshStr), "true")
+		return
+	}
 	if len(r.out) != 1 {
 		return
 	}
